@@ -97,9 +97,9 @@ theorem mergeSets_wf {G : List (List Proto)} (hG : ∀ g, g ∈ G → Two g) :
   subst e
   have hn := mergeSetsCore_nodup groupKey G r0 h0
   obtain ⟨g, hg, _, hsub⟩ := mergeSetsCore_contains_input groupKey G r0 h0
-  refine ⟨nodup_sortBy _ hn, ?_⟩
+  refine ⟨nodup_sortProtos hn, ?_⟩
   have : Two r0 := two_mono (hG g hg) hsub
-  simp only [sortProtos, length_sortBy]
+  simp only [length_sortProtos]
   exact two_le_length this
 
 theorem mergeSets_from {G : List (List Proto)} {r : List Proto} (hr : r ∈ mergeSets G) :
@@ -258,14 +258,14 @@ theorem findHybrids_wf {clusters : List Proto} {wrap : Option Int} {hg : List (L
       · intro g hg
         obtain ⟨e, he, rfl⟩ := List.mem_map.1 hg
         obtain ⟨a, b, c⟩ := hext' e he
-        refine ⟨nodup_sortBy _ a, by simpa [sortProtos, length_sortBy] using b, ?_⟩
+        refine ⟨nodup_sortProtos a, by simpa [length_sortProtos] using b, ?_⟩
         intro p hp
         rcases c p (mem_sortProtos.1 hp) with ⟨m, hm, hpm⟩ | h1
         · obtain ⟨g0, hg0, hpg0⟩ := mergeSets_from hm p hpm
           exact (hpair g0 hg0).2 p hpg0
         · have := (mem_sortBy _ _ _).1 h1
           exact (List.mem_filter.1 this).1
-      · exact nodup_sortBy _ ((hn.filter _).filter _)
+      · exact nodup_sortProtos ((hn.filter _).filter _)
       · intro p hp
         have := mem_sortProtos.1 hp
         exact (List.mem_filter.1 (List.mem_filter.1 this).1).1
@@ -484,7 +484,7 @@ theorem findInterleaved_wf {clusters : List Proto} {cands : List Cand} {wrap : O
         intro p hp
         obtain ⟨g0, hg0, hp0⟩ := mergeSets_from hg p hp
         exact (hgroups g0 hg0).2 p hp0
-      · exact nodup_sortBy _ (hn.filter _)
+      · exact nodup_sortProtos (hn.filter _)
       · intro p hp
         exact (List.mem_filter.1 (mem_sortProtos.1 hp)).1
 
@@ -625,8 +625,8 @@ theorem buildOne_wf {wrap : Option Int} {ps : List Proto} {kind : Kind} {t t' : 
       obtain ⟨hkind, hmem, hok⟩ := mkCand_ok hcand
       have hcandwf : CandWF wrap ps cand := by
         refine ⟨hok, ?_, ?_, ?_, ?_⟩
-        · rw [hmem]; exact nodup_sortBy _ hg
-        · rw [hmem]; simpa [sortProtos, length_sortBy] using hlen
+        · rw [hmem]; exact nodup_sortProtos hg
+        · rw [hmem]; simpa [length_sortProtos] using hlen
         · rw [hkind]; exact hk
         · intro m hm; rw [hmem] at hm; exact hgp m (mem_sortProtos.1 hm)
       dsimp only at h
@@ -640,7 +640,9 @@ theorem buildOne_wf {wrap : Option Int} {ps : List Proto} {kind : Kind} {t t' : 
       · rename_i ex hget
         have hexwf : CandWF wrap ps ex := ht.1 ex (mem_values.2 ⟨_, getGo_mem hget⟩)
         split at h
-        · injection h with h; subst h; exact ht
+        · split at h
+          · cases h
+          injection h with h; subst h; exact ht
         · split at h
           · cases h
           · rename_i repl hrepl
@@ -650,7 +652,7 @@ theorem buildOne_wf {wrap : Option Int} {ps : List Proto} {kind : Kind} {t t' : 
             have hreplwf : CandWF wrap ps repl := by
               refine ⟨hrok, ?_, ?_, ?_, ?_⟩
               · rw [hrm]
-                apply nodup_sortBy
+                apply nodup_sortProtos
                 refine List.nodup_append.2 ⟨nodup_dedup _, nodup_diffL (nodup_dedup _), ?_⟩
                 intro x hx y hy e
                 subst e
@@ -660,7 +662,7 @@ theorem buildOne_wf {wrap : Option Int} {ps : List Proto} {kind : Kind} {t t' : 
                   List.Nodup.length_le_of_subset hexwf.nodup
                     (fun x hx => List.mem_append.2 (Or.inl (mem_dedup.2 hx)))
                 have := hexwf.big
-                simp only [sortProtos, length_sortBy]
+                simp only [length_sortProtos]
                 omega
               · rw [hrk]; exact hexwf.notSingle
               · intro m hm
@@ -783,7 +785,7 @@ theorem formationCore_wf {ps : List Proto} {wrap : Option Int} {cs : List Cand}
               · cases h
               · rename_i singles hS
                 injection h with h; subst h
-                have hun0 : (sortProtos ps).Nodup := nodup_sortBy _ hn
+                have hun0 : (sortProtos ps).Nodup := nodup_sortProtos hn
                 have hps0 : ∀ p, p ∈ sortProtos ps → p ∈ ps := fun p hp => mem_sortProtos.1 hp
                 obtain ⟨hH1, hH2, hH3⟩ := findHybrids_wf hH hun0
                 have ht0 : TableWF wrap ps ⟨[], []⟩ := ⟨fun c hc => by simp [Table.values] at hc, fun p hp => by cases hp⟩
@@ -814,7 +816,7 @@ theorem formationCore_wf {ps : List Proto} {wrap : Option Int} {cs : List Cand}
                     rw [e] at hm
                     have : m = p := by simpa using hm
                     subst this
-                    rcases List.mem_append.1 (mem_dedup.1 hp) with h2 | h2
+                    rcases List.mem_append.1 (mem_dedup.1 (mem_sortProtos.1 hp)) with h2 | h2
                     · exact hps0 m (hH3 m (hI3 m h2))
                     · exact ht3.2 m h2
                   · exact ⟨fun _ => by rw [e]; rfl, fun hne => absurd b hne⟩
